@@ -383,24 +383,28 @@ def unknown_name_cases(ns, I, seed, res, level_limit=None, extra_unknown=()):
                                       {"part": "unknown-name", "modules": ns, "imports": I, "level_limit": level_limit,
                                        "rule": {k: (list(v) if isinstance(v, tuple) else v) for k, v in spec.items()}, "seed": seed},
                                       "a lookup error", list(got))
-    # regex matching nothing
-    for pos in ("subj", "obj"):
-        for verb, imp, exc in SHAPES:
-            r = Rule().modules_that()
-            r = r.have_name_matching("^zzz$") if pos == "subj" else r.are_named(a)
-            r = getattr(r, verb)()
-            from ..impl import IMPORT_METHOD
+    # regex matching nothing: alone, and in a list after / before a pattern that does match
+    import re as _re
 
-            r = getattr(r, IMPORT_METHOD[(imp, exc)])()
-            r = r.are_named(b) if pos == "subj" else r.have_name_matching("^zzz$")
-            got = run_rule(r, ev)
-            res.transitions += 1
-            res.traces += 1
-            res.stats[f"regex-nomatch:{got[0]}"] += 1
-            if got[0] != "ERR":
-                res.violation("regex-without-match-gives-verdict",
-                              {"part": "regex-nomatch", "modules": ns, "imports": I, "pos": pos, "shape": [verb, imp, exc]},
-                              "a no-match error", list(got))
+    for pos in ("subj", "obj"):
+        hit = "^" + _re.escape(a if pos == "subj" else b) + "$"
+        for variant, pats in (("alone", "^zzz$"), ("after-match", [hit, "^zzz$"]), ("before-match", ["^zzz$", hit])):
+            for verb, imp, exc in SHAPES:
+                r = Rule().modules_that()
+                r = r.have_name_matching(pats) if pos == "subj" else r.are_named(a)
+                r = getattr(r, verb)()
+                from ..impl import IMPORT_METHOD
+
+                r = getattr(r, IMPORT_METHOD[(imp, exc)])()
+                r = r.are_named(b) if pos == "subj" else r.have_name_matching(pats)
+                got = run_rule(r, ev)
+                res.transitions += 1
+                res.traces += 1
+                res.stats[f"regex-nomatch:{got[0]}"] += 1
+                if got[0] != "ERR":
+                    res.violation("regex-without-match-gives-verdict",
+                                  {"part": "regex-nomatch", "modules": ns, "imports": I, "pos": pos, "shape": [verb, imp, exc], "patterns": variant},
+                                  "a no-match error", list(got))
 
 
 # -------------------------------------------------------------------- (d) entry points
